@@ -560,7 +560,8 @@ func configs(quick bool) []genCfg {
 	out = append(out, genCfg{Gen: "UnixFSDirectory", Size: 64, Custom: true}, genCfg{Gen: "UnixFSDirectory", Size: 64, Custom: true, Bitwidth: 3})
 	out = append(out, genCfg{Gen: "GenerateDirectoryFrom", Size: 64, Sharded: true})
 	out = append(out, genCfg{Gen: "BuildDirectory"}, genCfg{Gen: "BuildDirectory", Sharded: true})
-	for _, p := range []string{"want", "outer/want"} {
+	// paths with empty segments name the same entries as without them
+	for _, p := range []string{"want", "outer/want", "/outer/want/", "outer//want", "", "/"} {
 		for _, ex := range []bool{true, false} {
 			out = append(out, genCfg{Gen: "WrapContent", Path: p, Excl: ex})
 		}
